@@ -45,7 +45,7 @@ Lemma tick_calls : forall pre s post,
 Proof.
   induction pre as [|e pre IH]; intros s post.
   - cbn. destruct s as [c a]. reflexivity.
-  - rewrite ticks_cons. destruct e as [n| |b]; cbn [app run].
+  - rewrite ticks_cons. destruct e as [n env| |b]; cbn [app run]; unfold on_notif.
     + rewrite IH. cbn. reflexivity.
     + cbn [nth]. rewrite IH. destruct s as [c a]. reflexivity.
     + rewrite IH. cbn. reflexivity.
@@ -57,8 +57,8 @@ Proof.
   rewrite ticks_cons. destruct e; cbn [run length]; rewrite ?IH; reflexivity.
 Qed.
 
-Lemma expected_at_snoc_notif : forall init a0 pre n,
-  latest init (pre ++ [Notif n]) = n /\ alpha_at a0 (pre ++ [Notif n]) = alpha_at a0 pre.
+Lemma expected_at_snoc_notif : forall init a0 pre n env,
+  latest init (pre ++ [Notif n env]) = n /\ alpha_at a0 (pre ++ [Notif n env]) = alpha_at a0 pre.
 Proof. intros. unfold latest, alpha_at. rewrite !fold_left_app. cbn. split; reflexivity. Qed.
 
 (* the model (one pass with a state) equals the prefix-based reference *)
@@ -66,7 +66,7 @@ Lemma run_spec_gen : forall rest pre init a0,
   run (mkhst (latest init pre) (alpha_at a0 pre)) rest = spec_from init a0 pre rest.
 Proof.
   induction rest as [|e rest IH]; intros pre init a0; [reflexivity|].
-  destruct e as [n| |b]; cbn [run spec_from h_alpha h_counter].
+  destruct e as [n env| |b]; cbn [run spec_from h_alpha h_counter]; unfold on_notif.
   - rewrite <- IH. unfold latest, alpha_at. rewrite !fold_left_app. cbn. reflexivity.
   - f_equal. rewrite <- IH. unfold latest, alpha_at. rewrite !fold_left_app. cbn. reflexivity.
   - rewrite <- IH. unfold latest, alpha_at. rewrite !fold_left_app. cbn. reflexivity.
@@ -77,3 +77,19 @@ Proof. intros. unfold spec. rewrite <- run_spec_gen. reflexivity. Qed.
 
 Lemma next_is_succ : forall c, (c < 18446744073709551615)%N -> next c = (c + 1)%N.
 Proof. intros c H. unfold next. apply N.mod_small. lia. Qed.
+
+(* the counter follows the notification, whatever fails in the handler afterwards *)
+Lemma notif_sets_counter : forall s n env, h_counter (on_notif s n env) = n /\ h_alpha (on_notif s n env) = h_alpha s.
+Proof. intros. split; reflexivity. Qed.
+
+Lemma latest_after_notif : forall init pre n env mid,
+  (forall e, In e mid -> match e with Notif _ _ => False | _ => True end) ->
+  latest init (pre ++ Notif n env :: mid) = n.
+Proof.
+  intros init pre n env mid H. unfold latest. rewrite fold_left_app. cbn [fold_left].
+  generalize dependent n. induction mid as [|e mid IH]; intros n; [reflexivity|].
+  cbn [fold_left]. destruct e as [m env'| |b].
+  - exfalso. exact (H (Notif m env') (or_introl eq_refl)).
+  - apply IH. intros e He. apply H. right. exact He.
+  - apply IH. intros e He. apply H. right. exact He.
+Qed.
